@@ -600,7 +600,7 @@ func c18Run(c *Ctx) {
 			return
 		}
 	}
-	c.S.Rule = "explicit-state breadth-first search over the real package-option machine: state = dump (generated at build time) of the 38 package-level variables of mxj that are option state - what the setters write; other package-level variables a tree may have (tables, caches, pools, counters, lazily set flags) are not compared, their effect is judged by behaviour; transitions = every option setter in every argument form (explicit true/false, argument-less, attribute prefixes {-,\"\",@,_}, PrependAttrWithHyphen, key prefixes {#,_,$}, field separators, array sizes, skip function nil/f, empty-element syntax, JsonUseNumber) - 63 transitions; all histories of length <= D from the initial state with state de-duplication. On every transition: the reference option machine predicts the whole next state vector (documented semantics incl. toggles, 'disable' for white space, 'reset' for the field separator, the coupling of the two escaping switches), explicit forms are idempotent (the setter's global writes are logged against its documented write set, informational). On every state: 11 API families behave exactly as in the canonical state that agrees on the family's documented dependency set (non-interference), and after restoring defaults the state vector and the behaviour battery equal the fresh-process baseline. Documented behavioural effect of XmlGoEmptyElemSyntax ('<tag ...></tag> rather than <tag .../>'): for every value template with <= 4/5 nodes over {a,-x,#text} with empty containers, empty strings and nulls and 6 encoders, the output under the switch has the same token stream as the default output and contains no '/>'. Documented behavioural effect of the attribute prefix and the global key prefix (they only name keys inside the Map): for every document with <= 2 elements and <= 2 decorations (attributes whose own names begin with prefix characters: _id, __v, _; text, comment, PI), decode + encode under prefixes {@, _, __, attr_, -_} / key prefixes {_, $, %} gives the same XML as under the defaults. Cold starts: every history of length 1 (thorough: <= 2) is also run as the first thing a fresh process does (a child process of the worker): it applies the history, uses all 11 families, restores the defaults and uses them again - behaviour after the restore must equal the fresh baseline and behaviour in the state must equal what the long-lived worker shows in that state (whatever is initialised lazily must not freeze the options in force at first use). non-trivial = distinct states."
+	c.S.Rule = "explicit-state breadth-first search over the real package-option machine: state = dump (generated at build time) of the 38 package-level variables of mxj that are option state - what the setters write; other package-level variables a tree may have (tables, caches, pools, counters, lazily set flags) are not compared, their effect is judged by behaviour; transitions = every option setter in every argument form (explicit true/false, argument-less, attribute prefixes {-,\"\",@,_}, PrependAttrWithHyphen, key prefixes {#,_,$}, field separators, array sizes, skip function nil/f, empty-element syntax, JsonUseNumber) - 63 transitions; all histories of length <= D from the initial state with state de-duplication. On every transition: the reference option machine predicts the whole next state vector (documented semantics incl. toggles, 'disable' for white space, 'reset' for the field separator, the coupling of the two escaping switches), explicit forms are idempotent (the setter's global writes are logged against its documented write set, informational). On every state: 11 API families behave exactly as in the canonical state that agrees on the family's documented dependency set (non-interference), and after restoring defaults the state vector and the behaviour battery equal the fresh-process baseline. Documented behavioural effect of XmlGoEmptyElemSyntax ('<tag ...></tag> rather than <tag .../>'): for every value template with <= 4/5 nodes over {a,-x,#text} with empty containers, empty strings and nulls and 6 encoders, the output under the switch has the same token stream as the default output and contains no '/>'. Documented behavioural effect of the attribute prefix and the global key prefix (they only name keys inside the Map): for every document with <= 2 elements and <= 2 decorations (attributes whose own names begin with prefix characters: _id, __v, _; text, comment, PI), decode + encode under prefixes {@, _, __, attr_, -_, the two-byte character U+00A7, @ followed by U+00B5} / key prefixes {_, $, %} gives the same XML as under the defaults. Cold starts: every history of length 1 (thorough: <= 2) is also run as the first thing a fresh process does (a child process of the worker): it applies the history, uses all 11 families, restores the defaults and uses them again - behaviour after the restore must equal the fresh baseline and behaviour in the state must equal what the long-lived worker shows in that state (whatever is initialised lazily must not freeze the options in force at first use). non-trivial = distinct states."
 	c.S.Assumptions = []string{"key prefixes are single punctuation characters (as the property states)", "the fresh-process baseline is recorded in the worker before any setter is called"}
 	depth := 4
 	if c.Thorough {
@@ -699,7 +699,7 @@ func c18Run(c *Ctx) {
 			}
 			for _, doc := range docs {
 				x := renderDoc(doc, rvDefault)
-				for _, p := range []string{"@", "_", "__", "attr_", "-_"} {
+				for _, p := range []string{"@", "_", "__", "attr_", "-_", "\u00a7", "@\u00b5"} {
 					if c.Mine() {
 						c.Count("prefix_is_internal_cases", 1)
 						c.S.Schedules++
